@@ -312,6 +312,67 @@ def check_wide(case, col=None):
     return fails
 
 
+def check_nonelement(case, col=None):
+    """Component tags in places that are not element content: inside an attribute value, inside an HTML comment, inside
+    <title> / <textarea> text. Such an instance has no element of its own: it is rendered in place, no placeholder
+    survives, the surrounding element carries only the ids of the components IT is a root of, nothing is left behind."""
+    from django.template import Context, Template
+
+    from django_components import Component, registry
+
+    fails = []
+    for mode in ("django", "isolated"):
+        env.reset()
+        ids = {}
+        with env.components_settings(context_behavior=mode):
+
+            class Txt(Component):
+                template = "T{{ v }}"
+
+                def get_context_data(self, v=""):
+                    ids.setdefault("txt", []).append(self.id)
+                    return {"v": v}
+
+            class Host(Component):
+                template = (
+                    '<div data-m="host" data-echo="{{ me }}" title="{% component "txt" v="1" / %}">'
+                    '<!-- c:{% component "txt" v="2" / %} -->'
+                    '<textarea data-m="ta">{% component "txt" v="3" / %}</textarea>'
+                    '<i data-m="plain">{% component "txt" v="4" / %}</i></div>'
+                )
+
+                def get_context_data(self):
+                    ids["host"] = self.id
+                    return {"me": self.id}
+
+            registry.register("txt", Txt)
+            registry.register("host", Host)
+            try:
+                out = Template('{% component "host" / %}').render(Context({}))
+            except Exception as e:  # noqa
+                fails.append(("[%s] components in attribute / comment / textarea positions raised %r" % (mode, str(e)[:300]), "c14-nonelement-exc:" + exc_bucket(e)))
+                continue
+        body = re.sub(r"<!-- _RENDERED [^>]*-->", "", out)  # dependency comments are taken out by render_dependencies
+        for want in ('title="T1"', "<!-- c:T2 -->", ">T3</textarea>", ">T4</i>"):
+            if want not in body:
+                fails.append(("[%s] component written in a non-element position: expected %r in the output, got %r" % (mode, want, body[:500]), "c14-nonelement-output"))
+        if "djc-render-id" in out or "<template" in out:
+            fails.append(("[%s] a deferred-render placeholder survives in the output: %r" % (mode, out[:500]), "c14-nonelement-placeholder"))
+        if len(set(ids.get("txt", []))) != 4:
+            fails.append(("[%s] 4 text component instances expected, Component.id values seen: %r" % (mode, ids.get("txt")), "c14-nonelement-instances"))
+        for mk, idset, echo in parse_real(out):
+            want_ids = {ids["host"]} if mk == "host" else set()
+            if set(idset) != want_ids:
+                fails.append(("[%s] element %s carries %r, expected %r" % (mode, mk, sorted(idset), sorted(want_ids)), "c14-nonelement-ids"))
+        res = {k: v for k, v in env.registry_sizes().items() if v}
+        if res:
+            fails.append(("[%s] side tables not empty after the render: %r" % (mode, res), "c14-nonelement-residue"))
+        if col is not None:
+            col.case(jhash(["nonelement", mode]), True, sample={"family": "component tags inside attribute value / comment / textarea", "mode": mode, "output": out[:300]}, labels=("nonelement_positions",))
+    env.reset()
+    return fails
+
+
 def check_caught(case, col=None):
     """A nested Component.render(context=<the enclosing component's context>) inside get_context_data fails (or not) and
     the exception is caught by user code; the page goes on: all root elements still carry the right ids."""
@@ -416,15 +477,16 @@ def plan(tier, seed, scale=1.0):
         specs.append({"kind": "wide", "width": w})
     for where in (0, 1):
         specs.append({"kind": "caught", "where": where})
+    specs.append({"kind": "nonelement"})
     specs.append({"kind": "randids", "n": max(20, n // 20), "seed": derive_seed(seed, "c14r", 0)})
     return specs
 
 
 def run_shard(spec):
     col = Collector()
-    if spec["kind"] in ("wide", "caught"):
+    if spec["kind"] in ("wide", "caught", "nonelement"):
         case = dict(spec)
-        for m, b in (check_wide if spec["kind"] == "wide" else check_caught)(case, col):
+        for m, b in {"wide": check_wide, "caught": check_caught, "nonelement": check_nonelement}[spec["kind"]](case, col):
             col.fail(case, m, b)
         return col
     if spec["kind"] == "reentrant":
@@ -461,6 +523,8 @@ def replay(case):
         return check_wide(case)
     if case.get("kind") == "caught":
         return check_caught(case)
+    if case.get("kind") == "nonelement":
+        return check_nonelement(case)
     if case.get("random_ids"):
         env.patch_ids(False)
         try:
